@@ -122,6 +122,11 @@ InvChooseConforms == \A u \in UnionTypes :
                        /\ (Conforms(u, v, EmptyFn, Opts0) => ch.st \in {"ok", "unspec"})
 \* strict conformance implies conformance; conformance is insensitive to the tuple option for values without tuples
 InvStrictImplies == Conforms(t, v, EmptyFn, [strict |-> TRUE, tuples |-> TRUE]) => Conforms(t, v, EmptyFn, Opts0)
+\* the writers' strictness modes are ordered: strict => strict_allow_default => lax; and what a strict writer accepts it encodes as the lax one does
+InvWModeOrder ==
+  LET cs == Conforms(t, v, EmptyFn, [strict |-> FALSE, tuples |-> TRUE, wmode |-> "strict"])
+      ca == Conforms(t, v, EmptyFn, [strict |-> FALSE, tuples |-> TRUE, wmode |-> "sad"])
+  IN (cs => ca) /\ (ca => Conforms(t, v, EmptyFn, Opts0))
 \* what is read back conforms again, and is a fixed point of normalisation
 InvNormConforms == Dom => Conforms(t, nrm.v, EmptyFn, Opts0)
 
